@@ -20,7 +20,7 @@ from vlib.core import Stage, fail
 ID = "C15"
 MANIFEST = {
     "category": "exploration",
-    "text": "Schedule exploration by generated-input search with a differential oracle: deep AHBs (up to 40/100 nodes) with >= 3 free-text data elements whose inputs are pairwise different and whose expressions are dense in format constraints x content evaluation results x a schedule of yield counts consumed by the harness's asynchronous format-constraint / requirement-constraint evaluators, hints provider and package resolver. For every free-text element that the run reports, its ValidationResultInContext must equal the result of validate_data_element_freetext on a fresh copy of that element alone (nothing yields; segment status taken from the whole run); the multiset of (format-constraint key, text seen) pairs logged during the whole run must equal the union of the pairs logged by the single runs, i.e. every constraint was evaluated against its own element's input. A drawn subset of the format-constraint methods are plain functions that read the documented context variable themselves; in the element's own run every such evaluation must have seen exactly the element's input. Every visited segment with several free-text elements is also validated through validate_segment under the same schedule, below the status its group received; its rows must equal those of the whole run.",
+    "text": "Schedule exploration by generated-input search with a differential oracle: deep AHBs (up to 40/100 nodes) with >= 3 free-text data elements whose inputs are pairwise different and whose expressions are dense in format constraints x content evaluation results x a schedule of yield counts consumed by the harness's asynchronous format-constraint / requirement-constraint evaluators, hints provider and package resolver. For every free-text element that the run reports, its ValidationResultInContext must equal the result of validate_data_element_freetext on a fresh copy of that element alone (nothing yields; segment status taken from the whole run); the multiset of (format-constraint key, text seen) pairs logged during the whole run must equal the union of the pairs logged by the single runs, i.e. every constraint was evaluated against its own element's input. A drawn subset of the format-constraint methods are plain functions that read the documented context variable themselves; in the element's own run every such evaluation must have seen exactly the element's input. Every visited segment with several free-text elements is also validated through validate_segment under the same schedule, below the status its group received; its rows must equal those of the whole run. A third of the data elements have no discriminator (None) or share one; rows are attributed to elements by position.",
     "note": "Trusted: the schedule harness (vlib/sched.py); the format-constraint oracle function is pure in (key, text) and echoes the text, so a foreign input changes verdict or message. Interleavings are those of one asyncio event loop. Process configuration by shard (vlib/sut.py; recorded in replay files): plain / parse caches preheated beyond their size / warnings attributed to ahbicht raised as errors / logging fully enabled with every record rendered.",
     "technique": "property-based schedule exploration with a differential oracle (element inside the concurrent run vs the element alone) and a log invariant",
 }
@@ -80,9 +80,11 @@ def check(case):
             info["nie"] = True
             return info
         fail("raises", f"validation under schedule {case['delays']} raised {whole!r}")
-    rows = {r.discriminator: r for r in whole.value}
-    if len(rows) != len(whole.value):
-        fail("raises", "a discriminator was reported twice")
+    try:
+        rows = vtree.align(tree, whole.value)  # by position: some data elements have no or a shared discriminator
+    except vtree.Misaligned as error:
+        fail("rows", f"the result list does not report every visited node once, in document order: {error}; "
+             f"rows {[r.discriminator for r in whole.value]}")  # fmt: skip
     whole_log = _fc_log(schedule)
     info["overlap"] = sum(1 for a, b in schedule.overlaps if a[0] == "fc" and b[0] == "fc" and a[2] != b[2])
     single_log = Counter()
@@ -120,10 +122,11 @@ def check(case):
                 res = sut.call(validate_segment, vtree.build_segment(seg), parent, soll)
                 if not res.ok:
                     fail("raises", f"validate_segment({seg['d']}) below {parent} under schedule {case['delays']} raised {res!r}")
-                for row in res.value:
-                    if row != rows.get(row.discriminator):
-                        fail("segment-differs", f"validate_segment({seg['d']}) under the schedule: {row.discriminator} is "
-                             f"{row.validation_result}, in the whole run {rows.get(row.discriminator)}")  # fmt: skip
+                expected_rows = [rows[seg["d"]]] + [rows[e["d"]] for e in seg["des"] if e["d"] in rows]
+                if list(res.value) != expected_rows:
+                    differing = next((pair for pair in zip(res.value, expected_rows) if pair[0] != pair[1]), None)
+                    fail("segment-differs", f"validate_segment({seg['d']}) under the schedule returns {len(res.value)} rows, the whole "
+                         f"run has {len(expected_rows)} for it; first difference: {differing}")  # fmt: skip
                 info["segments"] = info.get("segments", 0) + 1
 
     for root in tree["groups"]:
@@ -147,6 +150,9 @@ def classify(case, info):
     labels.append(f"context-reading-fc-methods={len(case.get('sync_fc', ()))}")
     if info.get("segments"):
         labels.append("validate_segment-route")
+    shared = [vtree.disc(n) for k, n, _ in vtree.nodes(case["tree"]) if k in ("ft", "vp")]
+    if len(set(shared)) < len(shared):
+        labels.append("shared-or-absent-discriminators")
     return labels, info["overlap"] > 0
 
 
@@ -170,6 +176,8 @@ def strategy(tier):
                     node["inp"] = f"2022-01-{counter % 28 + 1:02d}T00:00:00+01:00"
                 else:
                     node["inp"] = "abcdefghij"[: counter % 9 + 1] + str(counter)
+        # data elements that were "not found in the MIG" have no discriminator, and nothing makes discriminators unique
+        vtree.anonymise(draw, tree)
         first = next((node for kind, node, _ in vtree.nodes(tree) if kind == "ft"), None)
         if first is not None and draw(st.booleans()):
             first["inp"] = draw(st.sampled_from([None, ""]))
@@ -189,5 +197,5 @@ def sample(case):
 
 STAGES = [
     Stage(name="schedules", kind="hyp", check=check, classify=classify, strategy=strategy,
-          budget={"quick": 100, "thorough": 800}, floors={"fc-evaluations-overlap": 0.25}, sample=sample),
+          budget={"quick": 100, "thorough": 800}, floors={"fc-evaluations-overlap": 0.2}, sample=sample),
 ]  # fmt: skip
